@@ -49,7 +49,7 @@ fn reserved_h2(w: &World, cid: usize) -> bool {
 pub fn on_issue(w: &mut World, rid: usize) {
     let origin = w.reqs[rid].origin.clone();
     let h2 = w.reqs[rid].h2;
-    if !w.cfg.with_pool || w.auto.is_some() {
+    if !w.cfg.with_pool || w.auto.is_some() || w.ambiguous_spelling {
         return;
     }
     // candidates by shadow state; requests that are still checking out and popped a connection at their
@@ -90,7 +90,7 @@ pub fn on_dial_created(w: &mut World, did: usize) {
         w.violate("C04", "R4:request-dialed-twice", format!("r{rid} started dial d{did} although it already started d{prev}"));
     }
     w.reqs[rid].dial = Some(did);
-    if !w.cfg.with_pool || w.auto.is_some() {
+    if !w.cfg.with_pool || w.auto.is_some() || w.ambiguous_spelling {
         // the remaining rules reason about atomic steps; under real threads only R4 is judged
         return;
     }
@@ -108,7 +108,14 @@ pub fn on_dial_created(w: &mut World, did: usize) {
     }
     // R1
     if w.reqs[rid].must_use_idle {
-        let still = w.reqs[rid].avail_at_issue.iter().all(|c| w.conns[*c].open() && w.conns[*c].alive());
+        // the obligation is void once somebody else was given the connection in the meantime (a pool may look at the
+        // idle list when the request is issued or when it is first polled)
+        let issued = w.reqs[rid].issued_step;
+        let still = w.reqs[rid].avail_at_issue.iter().all(|c| w.conns[*c].open() && w.conns[*c].alive())
+            && w.reqs[rid].avail_at_issue.iter().any(|c| {
+                let c = &w.conns[*c];
+                (c.h2 || (c.holders == 0 && !c.busy)) && c.last_handoff_step.map(|s| s <= issued).unwrap_or(true)
+            });
         if still {
             let av = w.reqs[rid].avail_at_issue.clone();
             w.violate("C04", "R1:dialed-although-idle-connection-available", format!("r{rid} started dial d{did} although connections {av:?} were idle-available when it was issued"));
@@ -183,6 +190,9 @@ pub fn on_conn_ready(w: &mut World, cid: usize) {
 /// A connection is being pushed into the pool. If requests are waiting, the pool hands it to one of them
 /// (HTTP/1: to exactly one, the first live waiter of its queue; HTTP/2: a clone to every live waiter).
 pub fn offer(w: &mut World, cid: usize, strict_each: bool) {
+    if w.ambiguous_spelling {
+        return;
+    }
     let origin = w.conns[cid].origin.clone();
     let step = w.step;
     // the request whose own attempt produced this connection closes its receiver before registering it
@@ -311,7 +321,12 @@ pub fn on_handoff(w: &mut World, rid: usize, cid: usize, is_reused: bool, uri: &
     // ---- C05
     if let Some(cs) = c_closed {
         let issued = w.reqs[rid].issued_step;
-        if cs < issued && (w.auto.is_none() || c_handoffs > 0) {
+        // real threads: the pool's "is it open?" look and its hand-over are not one atomic step with respect to the
+        // peer (nor can they be), so only a close that lies well before the request's issue is judged there
+        let long_before = w.conns[cid].closed_instant.map(|at| w.reqs[rid].issued_instant.saturating_duration_since(at) > std::time::Duration::from_millis(250)).unwrap_or(false);
+        if w.auto.is_some() && cs < issued && c_handoffs > 0 && !long_before {
+            w.count("c05_close_shortly_before_issue_not_judged_under_real_threads");
+        } else if cs < issued && (w.auto.is_none() || c_handoffs > 0) {
             w.violate("C05", "closed-before-issue", format!("c{cid} closed at step {cs}, given to r{rid} issued at step {issued}"));
         } else if w.auto.is_none() && !c_h2 && c_handoffs > 0 && (c_released.map(|rel| cs <= rel).unwrap_or(false) || c_ready.is_none() || c_ready < c_released) {
             w.violate("C05", "closed-before-handback", format!("c{cid} closed at step {cs} before it was handed back (released {c_released:?}, ready {c_ready:?}), given to r{rid}"));
@@ -397,6 +412,7 @@ pub fn on_handoff(w: &mut World, rid: usize, cid: usize, is_reused: bool, uri: &
     let c = &mut w.conns[cid];
     c.holders += 1;
     c.handoffs += 1;
+    c.last_handoff_step = Some(step);
     if !c.h2 {
         c.busy = true;
         c.busy_req = Some(rid);
@@ -411,7 +427,7 @@ pub fn on_handoff(w: &mut World, rid: usize, cid: usize, is_reused: bool, uri: &
 }
 
 /// judged by the stepper after each `Poll(r)`
-pub fn on_poll_result(w: &mut World, rid: usize, progressed: bool, wakes_since_last_poll: u32, polls_before: u32) {
+pub fn on_poll_result(w: &mut World, rid: usize, progressed: bool, wakes_since_last_poll: u32, polls_before: u32, woken_during_poll: bool) {
     let step = w.step;
     // lost wake-up: the future made progress although nobody woke it since its previous poll
     if progressed && polls_before > 0 && wakes_since_last_poll == 0 {
@@ -428,7 +444,14 @@ pub fn on_poll_result(w: &mut World, rid: usize, progressed: bool, wakes_since_l
     }
     // C14(a): a connection handed back while this request was waiting must have found a taker by now
     if w.reqs[rid].state == ReqState::Checkout {
-        judge_offers_after_poll(w, rid);
+        // C14 fixes "its next poll" only for a request that waits for its OWN attempt. A request that waits on
+        // somebody else's attempt and woke itself during this poll has asked to be polled again (e.g. it re-joins the
+        // pool one turn later): it is judged at that poll.
+        if w.reqs[rid].dial.is_none() && woken_during_poll {
+            w.count("c14_pure_waiter_judged_at_its_next_poll");
+        } else {
+            judge_offers_after_poll(w, rid);
+        }
     }
 }
 
@@ -555,7 +578,7 @@ pub fn post_step(w: &mut World, snapshot: &[hyperdriver::verif_hooks::PoolEntry]
         }
     }
     // boundary observation (no hook): connections nobody holds and nobody waits for are retained by the pool
-    let origins: Vec<String> = w.cfg.origins.iter().map(|o| origin_of(&o.uri.parse().unwrap())).collect();
+    let origins: Vec<String> = if w.ambiguous_spelling { vec![] } else { w.cfg.origins.iter().map(|o| origin_of(&o.uri.parse().unwrap())).collect() };
     for o in origins {
         if waiting_reqs(w, &o).next().is_some() {
             continue;
